@@ -264,7 +264,7 @@ def report(a, mod, results, wall, seed, extra=None):
                                                 "discharged": 0, "wall_s": 0.0})
     ph["tasks"] += 1; ph["paths"] += r["paths"]; ph["obligations"] += r["obligations"]
     ph["discharged"] += r["discharged"]; ph["wall_s"] = round(ph["wall_s"] + r["wall_s"], 2)
-    if len(samples) < 6: samples.extend(r["samples"][:1])
+    samples.extend(r["samples"])
     violations.extend(r["violations"])
     for i in r["inconclusive"]:
       i = dict(i, harness=r["harness"], cfg=r["cfg"])
@@ -275,6 +275,12 @@ def report(a, mod, results, wall, seed, extra=None):
   if extra:
     violations.extend(extra.get("violations", []))
     for i in extra.get("inconclusive", []): inconcl.append(dict(i, harness="extra", cfg={}))
+  # one telling sample per harness: prefer those with solver-discharged claims and a non-trivial path condition
+  best = {}
+  for sm in samples:
+    score = len(sm.get("claims_discharged") or []) * 3 + len(sm.get("path_condition") or [])
+    if sm["harness"] not in best or score > best[sm["harness"]][0]: best[sm["harness"]] = (score, sm)
+  samples = [sm for _, sm in sorted(best.values(), key=lambda x: -x[0])][:8]
   known = load_known()
   new_v, known_v = [], []
   seen = set()
